@@ -138,6 +138,7 @@ def programs(seedv, n, tier):
 # ------------------------------------------------------------------ data
 @st.composite
 def data_strategy(draw, prog, props):
+    from vlib import eqcatalog as C
     arrays = []
     per = prog['periodic']
     L = 2.0
@@ -157,7 +158,9 @@ def data_strategy(draw, prog, props):
             elif p in ('m', 'rho', 'rho0', 'cs', 'V', 'e', 'p'):
                 pr[p] = dict(data=[draw(st.integers(8, 24)) / 16.0
                                    for _ in range(n)])
-            elif p in ('tr', 'w0'):
+            elif p in C.INT_PROPS:
+                pr[p] = dict(type=C.INT_PROPS[p], data=[0] * n)
+            elif p in ('tr', 'nw'):
                 pr[p] = dict(type='long',
                              data=[draw(st.integers(0, 1000)) for _ in
                                    range(n)])
@@ -217,7 +220,7 @@ def needed_props(prog):
     icls, steppers = make_objects(prog)
     props = {}
     for nm in ('a0', 'a1'):
-        p = set(BASE) | {'tr', 'w0'}
+        p = set(BASE) | {'tr', 'nw'}
         if nm in steppers:
             p |= stepper_props(steppers[nm])
         props[nm] = p
@@ -394,11 +397,14 @@ def run_shard(spec, ctx):
                 stats.extra['jit_compiles'] += 1
             except SystemExit:
                 holder['sides'] = None
-                return Outcome([Failure(
-                    'SPHCompiler', 'compile_failed',
-                    'integrator program does not compile: %r' % (prog,),
-                    dict(integrator=prog['integrator'].split('.')[-1]))],
-                    [prog['kind']], False)
+                if prog['kind'] == 'custom':
+                    holder['compile_failed'] = True
+                else:
+                    # shipped steppers on generic double/stride-1 arrays:
+                    # a type mismatch of the harness layout, listed
+                    stats.extra.setdefault('skipped_programs', {})[
+                        spec['name']] = 'does not compile on the generic ' \
+                        'array layout'
             except RuntimeError as ex:
                 # documented rejection (e.g. stepper needs a property the
                 # generic arrays lack is impossible here; anything else is
@@ -407,6 +413,12 @@ def run_shard(spec, ctx):
                 stats.extra.setdefault('skipped_programs', {})[
                     spec['name']] = repr(ex)[:300]
                 return Outcome([], [prog['kind']], False, skipped=True)
+        if holder.get('compile_failed'):
+            return Outcome([Failure(
+                'SPHCompiler', 'compile_failed',
+                'integrator program does not compile: %r' % (prog,),
+                dict(integrator=prog['integrator'].split('.')[-1]))],
+                [prog['kind']], False)
         if holder['sides'] is None:
             return Outcome([], [prog['kind']], False, skipped=True)
         fails, labels, nt = run_data(prog, holder['sides'], data, bitwise)
